@@ -166,6 +166,8 @@ class Sim:
 
     # ------------------------------------------------------------------ guard evaluation
     def truth(self, e: ast.AST, fs: FS, p: Proc) -> bool:
+        if isinstance(e, ast.Constant):
+            return bool(e.value)  # `while True:` retry loops
         if isinstance(e, ast.BoolOp):
             vals = [self.truth(v, fs, p) for v in e.values]
             return all(vals) if isinstance(e.op, ast.And) else any(vals)
@@ -245,6 +247,11 @@ class Sim:
             if cur != ABSENT and not _tolerant(st.eff):
                 raise Failure(f"{p.name}: {st!r} raises FileExistsError (the name exists)")
             fs.s[term] = ("link", inst(st.src, p.env))
+        elif kind == "CREATE_EXCL":
+            if cur != ABSENT:
+                raise Failure(f"{p.name}: {st!r} fails (FileExistsError): the name is still there although its creator is gone - an exclusive-create lock "
+                              "left by a killed process is never released, so every later process fails here until someone removes the file by hand")
+            fs.s[term] = ("file", p.env["version"])
         elif kind in ("REMOVE", "RMTREE"):
             if cur == ABSENT and kind == "REMOVE" and not _tolerant(st.eff):
                 raise Failure(f"{p.name}: {st!r} raises FileNotFoundError (already removed)")
